@@ -805,6 +805,26 @@ def install(R):
         if key in cache:
             return cache[key]
         fm = mask.snapshot()
+        if isinstance(mask.shape[0], int):
+            # a concrete mask (finite-scope pass, differential self-test): rank / unrank / count are computed, not axiomatised
+            bits = [z3.simplify(fm.get(i)) for i in range(mask.shape[0])]
+            if all(z3.is_true(b) or z3.is_false(b) for b in bits):
+                sel = [i for i, b in enumerate(bits) if z3.is_true(b)]
+                Kc = len(sel)
+
+                def crank(r):
+                    t = z3.IntVal(0)
+                    for pos, i in reversed(list(enumerate(sel))):
+                        t = z3.If(z(r) == i, z3.IntVal(pos), t)
+                    return t
+
+                def cunrank(j):
+                    t = z3.IntVal(0)
+                    for pos, i in reversed(list(enumerate(sel))):
+                        t = z3.If(z(j) == pos, z3.IntVal(i), t)
+                    return t
+                cache[key] = (fm, z3.IntVal(mask.shape[0]), Kc, crank, cunrank)
+                return cache[key]
         n = z(mask.shape[0])
         K = z3.Int(fresh_name("count"))
         rank = z3.Function(fresh_name("rank"), z3.IntSort(), z3.IntSort())
@@ -817,6 +837,9 @@ def install(R):
                           patterns=[rank(r)]))
         E.axiom(z3.ForAll([j], z3.Implies(z3.And(j >= 0, j < K), z3.And(inb(unrank(j)), fm.get(unrank(j)), rank(unrank(j)) == j)),
                           patterns=[unrank(j)]))
+        j2 = z3.Int(fresh_name("mj2"))
+        E.axiom(z3.ForAll([j, j2], z3.Implies(z3.And(j >= 0, j < j2, j2 < K), unrank(j) < unrank(j2)), patterns=[z3.MultiPattern(unrank(j), unrank(j2))]),
+                requested=False)      # order preservation: only tried in the last solver stage (rarely needed, costly to instantiate)
         E.used_lemmas.add("mask_rank: numpy boolean-mask selection keeps the selected rows in order (rank/unrank bijection, count)")
         cache[key] = (fm, n, K, rank, unrank)
         return cache[key]
@@ -833,6 +856,9 @@ def install(R):
             out = NdArr.from_fn("sel", (K,), arr.kind, lambda j: fa.get(unrank(j)))
         elif arr.ndim == 2:
             out = NdArr.from_fn("sel", (K, arr.shape[1]), arr.kind, lambda j, c: fa.get(unrank(j), c))
+            if isinstance(K, int):
+                out.cell.sel_of = (arr, mask)
+                return out
             # rows of the selection are the selected rows (row extensionality, instance of the sel definition)
             r = z3.Int(fresh_name("sr"))
             E.axiom(z3.ForAll([r], z3.Implies(z3.And(r >= 0, r < n, fm.get(r)), row_of(E, out, rank(r)) == row_of(E, fa, r)),
@@ -881,7 +907,7 @@ def install(R):
     def np_any(E, a):
         if isinstance(a, NdArr) and a.ndim == 1 and a.kind == "bool":
             fm, n, K, rank, unrank = mask_info(E, a)
-            return K > 0
+            return (K > 0) if isinstance(K, int) else K > 0
         raise Unsupported("any(%r)" % (a,))
     R.np_any = np_any
     R.fns["numpy.any"] = lambda E, a, **kw: np_any(E, a)
@@ -891,6 +917,8 @@ def install(R):
             fm, n, K, rank, unrank = mask_info(E, a)
             r = z3.Int(fresh_name("ar"))
             # all(mask) <=> every row selected (count = n); stated both ways for the solver
+            if isinstance(K, int):
+                return K == a.shape[0]
             E.axiom(z3.Implies(K == n, z3.ForAll([r], z3.Implies(z3.And(r >= 0, r < n), fm.get(r)))))
             E.axiom(z3.Implies(z3.ForAll([r], z3.Implies(z3.And(r >= 0, r < n), fm.get(r))), K == n))
             return K == n
